@@ -1,5 +1,6 @@
 import KeepVerif.Model.C02
 import Mathlib.LinearAlgebra.Lagrange
+import Mathlib.FieldTheory.Finite.Basic
 /-!
 # C02 — Beacon DKG: honest key shares are consistent with the group public key
 
@@ -22,8 +23,10 @@ Model level (the functions the driver runs, `Model/C01.lean`):
 `interpolate0_tie_partial`: the Nat implementation (`interpolate0`, Fermat inverse by square and
 multiply) is tied to the field formula only on concrete instances over the real modulus (kernel
 evaluation) and differentially (independent big.Int code in the harness on every run).
-**Gap**: no general proof that `interpolate0 q` equals the field expression of `lagrange_at_zero`
-in `ZMod q` (needs `powModAux` correctness + Fermat), and — inherited from C01 — no protocol-level
+`powMod_eq` and `inv_spec` prove that the model's `inv` is the modular inverse for every prime
+modulus (`x · inv q x ≡ 1`).
+**Gap**: the remaining fold-to-`Finset` step (that `interpolate0 q`, given `inv_spec`, equals the
+field expression of `lagrange_at_zero` in `ZMod q`) is not proved, and — inherited from C01 — no protocol-level
 proof that every honest member's QUAL set is the same for all adversaries.
 -/
 namespace KeepVerif.C02
@@ -156,6 +159,75 @@ theorem phase12_key_is_sum (st : St) (hq : 0 < st.q) :
   have h2 := gen (fun p : Nat × Nat => p.2) st.reconPriv k1
   rw [← Nat.mod_eq_of_lt h2lt, h2, Nat.add_mod, ← Nat.mod_eq_of_lt h1lt, Nat.mod_mod, h1]
   exact mod3 _ _ _ _
+
+/-! ## modular inverse of the model -/
+
+theorem powModAux_lt (fuel b e m acc : Nat) (hm : 0 < m) (hacc : acc < m) :
+    powModAux fuel b e m acc < m := by
+  induction fuel generalizing b e acc with
+  | zero => simpa [powModAux] using hacc
+  | succ f ih =>
+    unfold powModAux
+    split
+    · exact hacc
+    · apply ih
+      split
+      · exact Nat.mod_lt _ hm
+      · exact hacc
+
+theorem powModAux_spec (fuel b e m acc : Nat) (he : e < 2 ^ fuel) :
+    powModAux fuel b e m acc % m = acc * b ^ e % m := by
+  induction fuel generalizing b e acc with
+  | zero =>
+    have : e = 0 := by simpa using he
+    subst this; simp [powModAux]
+  | succ f ih =>
+    unfold powModAux
+    by_cases h0 : e = 0
+    · subst h0; simp
+    · rw [if_neg h0]
+      have he2 : e / 2 < 2 ^ f := by
+        rw [Nat.pow_succ] at he; omega
+      rw [ih _ _ _ he2]
+      have hpow : (b * b % m) ^ (e / 2) % m = b ^ (2 * (e / 2)) % m := by
+        rw [← Nat.pow_mod, Nat.pow_mul, Nat.pow_two]
+      by_cases hodd : e % 2 = 1
+      · rw [if_pos hodd]
+        have hsplit : e = 2 * (e / 2) + 1 := by omega
+        have hbe : b ^ e = b * b ^ (2 * (e / 2)) := by
+          conv => lhs; rw [hsplit]
+          rw [Nat.pow_succ, Nat.mul_comm]
+        rw [Nat.mul_mod, Nat.mod_mod, hpow, ← Nat.mul_mod, Nat.mul_assoc, hbe]
+      · rw [if_neg hodd]
+        have hsplit : e = 2 * (e / 2) := by omega
+        have hbe : b ^ e = b ^ (2 * (e / 2)) := by
+          conv => lhs; rw [hsplit]
+        rw [Nat.mul_mod, hpow, ← Nat.mul_mod, hbe]
+
+/-- the square-and-multiply loop computes modular exponentiation -/
+theorem powMod_eq (b e m : Nat) (hm : 1 < m) (he : e < 2 ^ 512) : powMod b e m = b ^ e % m := by
+  unfold powMod
+  have hlt := powModAux_lt 512 (b % m) e m (1 % m) (by omega) (Nat.mod_lt _ (by omega))
+  rw [← Nat.mod_eq_of_lt hlt, powModAux_spec _ _ _ _ _ he, Nat.mod_eq_of_lt hm, Nat.one_mul,
+    ← Nat.pow_mod]
+
+/-- `inv` (Fermat's little theorem by square and multiply, the model's `ModInverse`) is the modular
+    inverse for every prime modulus below 2^512 — in particular for the bn256 order under A-field. -/
+theorem inv_spec (q x : Nat) (hq : q.Prime) (hq512 : q < 2 ^ 512) (hx : ¬ q ∣ x) :
+    x * inv q x % q = 1 := by
+  have hq1 : 1 < q := hq.one_lt
+  unfold inv
+  rw [powMod_eq x (q - 2) q hq1 (by omega), Nat.mul_mod, Nat.mod_mod, ← Nat.mul_mod, ← Nat.pow_succ']
+  have h2 : (q - 2).succ = q - 1 := by have := hq.two_le; omega
+  rw [h2]
+  have h := Nat.ModEq.pow_totient ((Nat.Prime.coprime_iff_not_dvd hq).2 hx).symm
+  rw [Nat.totient_prime hq] at h
+  rw [h, Nat.mod_eq_of_lt hq1]
+
+/-- the generated modulus fits the fuel of `powMod` -/
+theorem order_lt_fuel : Gen.C02.order < 2 ^ 512 :=
+  Nat.lt_of_lt_of_le (show Gen.C02.order < 2 ^ 254 by decide)
+    (Nat.pow_le_pow_right (by decide) (by decide))
 
 /-! ## monitor -/
 
